@@ -36,6 +36,13 @@ class nnf_conv(Conv):
         else:
             return pt
 
+def compare_literal(t1, t2):
+    """Order literals by their atom first, so that A and ~A are always adjacent."""
+    a1 = t1.arg if t1.is_not() else t1
+    a2 = t2.arg if t2.is_not() else t2
+    cp = term_ord.fast_compare(a1, a2)
+    return cp if cp != 0 else term_ord.fast_compare(t1, t2)
+
 class swap_conj_r(Conv):
     """Rewrite A1 /\ (A2 /\ A3) to A2 /\ (A1 /\ A3), or if the left argument
     is an atom, rewrite A1 /\ A2 to A2 /\ A1."""
@@ -70,7 +77,7 @@ class norm_conj_atom(Conv):
                                 arg1_conv(rewr_conv('conj_pos_neg')),
                                 rewr_conv('conj_false_right'))
             
-            cp = term_ord.fast_compare(t.arg1, t.arg.arg1)
+            cp = compare_literal(t.arg1, t.arg.arg1)
             if cp > 0:
                 return pt.on_rhs(swap_conj_r(), arg_conv(self), try_conv(self))
             elif cp == 0:
@@ -83,7 +90,7 @@ class norm_conj_atom(Conv):
                 return pt.on_rhs(rewr_conv('conj_pos_neg'))
             elif t.arg1 == Not(t.arg):
                 return pt.on_rhs(rewr_conv('conj_neg_pos'))
-            cp = term_ord.fast_compare(t.arg1, t.arg)
+            cp = compare_literal(t.arg1, t.arg)
             if cp > 0:
                 return pt.on_rhs(swap_conj_r())
             elif cp == 0:
@@ -138,16 +145,20 @@ class norm_disj_atom(Conv):
                                 arg1_conv(rewr_conv('disj_pos_neg')),
                                 rewr_conv('disj_true_left'))
             
-            cp = term_ord.fast_compare(t.arg1, t.arg.arg1)
+            cp = compare_literal(t.arg1, t.arg.arg1)
             if cp > 0:
-                return pt.on_rhs(swap_disj_r(), arg_conv(self))
+                return pt.on_rhs(swap_disj_r(), arg_conv(self), try_conv(self))
             elif cp == 0:
                 return pt.on_rhs(rewr_conv('disj_assoc_eq'), 
                                 arg1_conv(rewr_conv('disj_same_atom')))
             else:
                 return pt
         else:
-            cp = term_ord.fast_compare(t.arg1, t.arg)
+            if t.arg == Not(t.arg1):
+                return pt.on_rhs(rewr_conv('disj_pos_neg'))
+            elif t.arg1 == Not(t.arg):
+                return pt.on_rhs(rewr_conv('disj_neg_pos'))
+            cp = compare_literal(t.arg1, t.arg)
             if cp > 0:
                 return pt.on_rhs(swap_disj_r())
             elif cp == 0:
